@@ -187,20 +187,20 @@ var pathValues = []string{".", "..", "...", "Nested", "Nested.Name", "Ptr", "Ptr
 
 var keyValues = map[string][]string{
 	"map": pathValues, "ignore": pathValues, "autoMap": pathValues,
-	"default":        {"New", "F", "FE", "p:New", ":New", "New New", "", "WithCtx", "Custom", "vcase/none:New", "strconv:Itoa", "New |"},
-	"extend":         {"F", "FE", "Custom", "Custom Custom", "F.*", ".*", "(", "strconv:.*", "strconv:Itoa", "p:F", "vcase/none:.*", ":", "WithCtx", "New"},
-	"enum:map":       {"SKindA TKindA", "SKindA @error", "SKindA @ignore", "SKindA @panic", "SKindA", "SKindA TKindA TKindB", "Nope TKindA", "SKindA Nope", "@error SKindA", "SKindA @"},
-	"enum:transform": {"regex", "regex SKind(.*) TKind$1", "regex ( x", "regex (.*)", "regex (.*) $2", "bogus x", "", "regex  ", "regex SKind(.) TKind$1 extra"},
-	"enum:unknown":   {"@error", "@panic", "@ignore", "TKindA", "Nope", "@nope", "", "TKindA TKindB"},
-	"enum:exclude":   {"p:SKind", ":SKind", "SKind", ".*:.*", "(:x", "p:(", "", "vcase/f:.*"},
-	"update":         {"source", "target", "nope", "", "source target"},
-	"context":        {"source", "c", "nope", "", "a b"},
-	"output:file":    {"./x.go", "../x.go", "/x.go", "@cwd/x.go", "@cwd/", "@cwd", "x", "", "a b", "./generated", "./", "."},
-	"output:package": {"x", "x:y", ":y", "x:", "x:y:z", "", "vcase/other", "vcase/other:9x", ":func", "a b"},
-	"output:raw":     {"func X() {}", "func (", "}", "var x = ", "import \"os\"", "// c", ""},
-	"name":           {"X", "9x", "func", "", "A B", "Ünï", "a-b"},
+	"default":           {"New", "F", "FE", "p:New", ":New", "New New", "", "WithCtx", "Custom", "vcase/none:New", "strconv:Itoa", "New |"},
+	"extend":            {"F", "FE", "Custom", "Custom Custom", "F.*", ".*", "(", "strconv:.*", "strconv:Itoa", "p:F", "vcase/none:.*", ":", "WithCtx", "New"},
+	"enum:map":          {"SKindA TKindA", "SKindA @error", "SKindA @ignore", "SKindA @panic", "SKindA", "SKindA TKindA TKindB", "Nope TKindA", "SKindA Nope", "@error SKindA", "SKindA @"},
+	"enum:transform":    {"regex", "regex SKind(.*) TKind$1", "regex ( x", "regex (.*)", "regex (.*) $2", "bogus x", "", "regex  ", "regex SKind(.) TKind$1 extra"},
+	"enum:unknown":      {"@error", "@panic", "@ignore", "TKindA", "Nope", "@nope", "", "TKindA TKindB"},
+	"enum:exclude":      {"p:SKind", ":SKind", "SKind", ".*:.*", "(:x", "p:(", "", "vcase/f:.*"},
+	"update":            {"source", "target", "nope", "", "source target"},
+	"context":           {"source", "c", "nope", "", "a b"},
+	"output:file":       {"./x.go", "../x.go", "/x.go", "@cwd/x.go", "@cwd/", "@cwd", "x", "", "a b", "./generated", "./", "."},
+	"output:package":    {"x", "x:y", ":y", "x:", "x:y:z", "", "vcase/other", "vcase/other:9x", ":func", "a b"},
+	"output:raw":        {"func X() {}", "func (", "}", "var x = ", "import \"os\"", "// c", ""},
+	"name":              {"X", "9x", "func", "", "A B", "Ünï", "a-b"},
 	"arg:context:regex": {"^c$", "(", ".*", "", "a b", "source"},
-	"wrapErrorsUsing": {"vcase/errs", "vcase/none", "", "fmt", "a b", "./errs"},
+	"wrapErrorsUsing":   {"vcase/errs", "vcase/none", "", "fmt", "a b", "./errs"},
 }
 
 func fuzzDirective(r *rand.Rand) string {
@@ -310,7 +310,6 @@ func FuzzDirectiveCase(r *rand.Rand, name string) *Case {
 
 var argvTokens = []string{"gen", "help", "version", "-h", "--help", "-g", "-global", "-cwd", "-build-tags", "-output-constraint", "./p", "./...", "./none", "", "-", "--", "-x", "--gen", "gen gen",
 	"ignoreMissing", "skipCopySameType no", "bogus", "x y z", "/", ".", "..", "p", "vcase/argv/p", "github.com/none/none", "-g=ignoreMissing", "-cwd=.", "-cwd=/nonexistent", "-build-tags=", "-output-constraint=", "a,b", "!a", "&&", "\x01"}
-
 
 // FuzzArgvCase: a valid package and a random argument vector.
 func FuzzArgvCase(r *rand.Rand, name string) *Case {
